@@ -16,7 +16,7 @@ PROPERTY = "C35"
 TR = "conch/ssh/transport.py"
 QT = "twisted.conch.ssh.transport.SSHTransportBase."
 QS = "twisted.conch.ssh.transport.SSHCiphers."
-TECHNIQUE = "CFG must-pass / dominance over getPacket, sendPacket, dataReceived + table and sibling agreement"
+TECHNIQUE = "CFG must-pass/dominance, table and sibling agreement, finite evaluation of version exchange"
 EXPLANATION = (
     "getPacket: the payload return (and the decompressor) is reachable only through 'no MAC configured' or a true "
     "currentEncryptions.verify(incomingPacketSequence, packet, mac) whose packet is the very value the payload is sliced from; a MAC "
@@ -28,8 +28,11 @@ EXPLANATION = (
     "pre-increment outgoingPacketSequence, one increment per write, compression flushed per packet and applied before framing. "
     "SSHCiphers.makeMAC/verify authenticate the same string with direction-correct keys and compare whole digests; setKeys is direction "
     "consistent. Tables: supportedMACs/ciphers/compressions are handled. Key re-exchange queue is flushed in order. Version exchange: "
-    "4 KiB limit, banner lines skipped, bytes after the version line preserved; two segmentation defects of the version exchange are "
-    "reported as known findings F35a/F35b. Not decided: the cryptography itself, key exchange, full segmentation invariance."
+    "4 KiB limit, banner lines skipped, bytes after the version line preserved, and the extracted dataReceived is evaluated (whitelisted "
+    "interpreter, getPacket/sendDisconnect stubbed) on banner/version/tail streams under every two-way split against the reference 'first "
+    "complete line starting with SSH-, judged on the accumulated buffer'; two segmentation defects of the version exchange are reported as "
+    "known findings F35a/F35b. Single-assignment arithmetic temporaries are substituted before any normalisation. Not decided: the "
+    "cryptography itself, key exchange, segmentation invariance of the encrypted packet stream beyond the clauses above."
 )
 ASSUMPTIONS = [
     "currentEncryptions is an SSHCiphers (verify / makeMAC / encrypt / decrypt are the methods analysed here)",
